@@ -8,6 +8,7 @@ mod flat;
 mod gen;
 mod generated;
 mod indicators;
+mod malaw;
 mod methods;
 mod renko;
 mod rng;
@@ -67,6 +68,7 @@ fn main() {
 			"window" => window::suite(&mut out, seed, thorough),
 			"action" => action::suite(&mut out, seed, thorough),
 			"ctor" => methods::ctor_suite(&mut out, seed, thorough),
+			"malaw" => malaw::suite(&mut out, seed, thorough),
 			"candle" => candle::suite(&mut out, seed, thorough),
 			"renko" => renko::suite(&mut out, seed, thorough),
 			"api" => api::suite(&mut out, seed, thorough, &arg(&args, "--which").unwrap_or_else(|| "routes".into())),
